@@ -50,6 +50,20 @@ class Contract(object):
         return out
 
 
+def raise_ids(c, modname):
+    """class ids covered by each raises entry: an entry for class E covers E's subclasses *except* those covered
+    by an entry for a strict subclass of E (the most specific entry decides)"""
+    quals = {ex: front.resolve_exc_name(modname, ex) for ex in c.raises}
+    out = {}
+    for ex, q in quals.items():
+        ids = set(front.subclass_ids(q))
+        for ex2, q2 in quals.items():
+            if q2 != q and front.is_subclass(q2, q):
+                ids -= set(front.subclass_ids(q2))
+        out[ex] = (q, sorted(ids))
+    return out
+
+
 def contract(qual, **kw):
     c = Contract(qual, **kw)
     CONTRACTS[qual] = c
